@@ -13,7 +13,7 @@
   definitions, for EVERY limb count; `GenShifts.nats l` is `l.map BitVec.toNat` (the limbs as the model's words).
 -/
 import CB.Props.C05
-import CB.Lemmas.GenShifts
+import CB.Lemmas.GenShiftsVar
 namespace CB.P05G
 open CB CB.Shift CB.Bits
 
@@ -125,5 +125,54 @@ theorem src_uint_shl_limb_exact (a : List (BitVec 64)) (hne : a ≠ []) (s : Bit
 example : Gen.Shifts.Uint.overflowing_shl1 2 [0#64, 1#64 <<< 63] = ([0#64, 0#64], 1#64) := by decide
 example : Gen.Shifts.Uint.shr1_with_carry 2 [3#64, 0#64] = ([1#64, 0#64], ~~~0#64) := by decide
 example : Gen.Shifts.Uint.shl_limb 2 [1#64 <<< 63, 1#64] 1#32 = ([0#64, 3#64], 0#64) := by decide
+
+/-! ## T05.G3 — the SOURCE of the variable-time shifts `Uint::overflowing_shl_vartime` / `overflowing_shr_vartime`
+
+A `ConstCtOption<Uint<LIMBS>>` of the source is the pair (value, `is_some` mask), as in the model; the early `return`s of
+the source are `if .. then .. else` in the translation; `Self::BITS` is `BitVec.ofNat 32 (64 * LIMBS)`, hence the side
+condition `64 · LIMBS < 2^32` (the crate's `Uint::BITS` is a `u32` constant: larger types do not compile). -/
+
+/-- the hand-written model of the variable-time shifts (what T05.1a/b are proved about) IS the translated source, for every
+    limb count and EVERY shift amount (in range or not) -/
+theorem vartime_model_is_translated_source (a : List (BitVec 64)) (s : BitVec 32) (hL : 64 * a.length < 2 ^ 32) :
+    overflowingShlVartime (GenShifts.nats a) s.toNat =
+      (GenShifts.nats (Gen.Shifts.Uint.overflowing_shl_vartime a.length a s).1,
+       (Gen.Shifts.Uint.overflowing_shl_vartime a.length a s).2.toNat) ∧
+    overflowingShrVartime (GenShifts.nats a) s.toNat =
+      (GenShifts.nats (Gen.Shifts.Uint.overflowing_shr_vartime a.length a s).1,
+       (Gen.Shifts.Uint.overflowing_shr_vartime a.length a s).2.toNat) :=
+  ⟨GenShifts.overflowingShlVartime_bridge a s hL, GenShifts.overflowingShrVartime_bridge a s hL⟩
+
+/-- the TRANSLATED `Uint::overflowing_shl_vartime`: `is_some` exactly when `s < BITS`, then `val r = (val a · 2^s) mod B^LIMBS`;
+    otherwise the carried value is zero; the result has `LIMBS` limbs -/
+theorem src_uint_shl_vartime_exact (a : List (BitVec 64)) (s : BitVec 32) (hL : 64 * a.length < 2 ^ 32) :
+    (Gen.Shifts.Uint.overflowing_shl_vartime a.length a s).2 = GenBits.ofBool (decide (s.toNat < 64 * a.length)) ∧
+    (s.toNat < 64 * a.length → val (GenShifts.nats (Gen.Shifts.Uint.overflowing_shl_vartime a.length a s).1) =
+        (val (GenShifts.nats a) * 2 ^ s.toNat) % B ^ a.length) ∧
+    (64 * a.length ≤ s.toNat → val (GenShifts.nats (Gen.Shifts.Uint.overflowing_shl_vartime a.length a s).1) = 0) ∧
+    (Gen.Shifts.Uint.overflowing_shl_vartime a.length a s).1.length = a.length := by
+  have ⟨m, e, z, l, _⟩ := P05.shl_vartime_spec (GenShifts.nats_WF a) s.toNat
+  rw [GenShifts.overflowingShlVartime_bridge a s hL] at m e z l
+  rw [GenShifts.nats_length] at m e z l
+  dsimp only at m e z l
+  exact ⟨BitVec.eq_of_toNat_eq (by rw [m, GenBits.ofBool_toNat]), e, z, by simpa [GenShifts.nats] using l⟩
+
+/-- the TRANSLATED `Uint::overflowing_shr_vartime`: `is_some` exactly when `s < BITS`, then `val r = val a / 2^s` -/
+theorem src_uint_shr_vartime_exact (a : List (BitVec 64)) (s : BitVec 32) (hL : 64 * a.length < 2 ^ 32) :
+    (Gen.Shifts.Uint.overflowing_shr_vartime a.length a s).2 = GenBits.ofBool (decide (s.toNat < 64 * a.length)) ∧
+    (s.toNat < 64 * a.length → val (GenShifts.nats (Gen.Shifts.Uint.overflowing_shr_vartime a.length a s).1) =
+        val (GenShifts.nats a) / 2 ^ s.toNat) ∧
+    (64 * a.length ≤ s.toNat → val (GenShifts.nats (Gen.Shifts.Uint.overflowing_shr_vartime a.length a s).1) = 0) ∧
+    (Gen.Shifts.Uint.overflowing_shr_vartime a.length a s).1.length = a.length := by
+  have ⟨m, e, z, l, _⟩ := P05.shr_vartime_spec (GenShifts.nats_WF a) s.toNat
+  rw [GenShifts.overflowingShrVartime_bridge a s hL] at m e z l
+  rw [GenShifts.nats_length] at m e z l
+  dsimp only at m e z l
+  exact ⟨BitVec.eq_of_toNat_eq (by rw [m, GenBits.ofBool_toNat]), e, z, by simpa [GenShifts.nats] using l⟩
+
+/-- non-vacuity / evaluation: a 3-limb value (non-power-of-two width) shifted across a limb boundary, and an out-of-range shift -/
+example : Gen.Shifts.Uint.overflowing_shl_vartime 3 [~~~0#64, 1#64, 0#64] 65#32 = ([0#64, ~~~0#64 <<< 1, 3#64], ~~~0#64) := by decide
+example : Gen.Shifts.Uint.overflowing_shr_vartime 3 [0#64, 1#64, ~~~0#64] 65#32 = ([1#64 <<< 63, ~~~0#64 >>> 1, 0#64], ~~~0#64) := by decide
+example : Gen.Shifts.Uint.overflowing_shl_vartime 3 [1#64, 1#64, 1#64] 192#32 = ([0#64, 0#64, 0#64], 0#64) := by decide
 
 end CB.P05G
